@@ -6,18 +6,21 @@ import os
 V = os.path.dirname(os.path.dirname(os.path.abspath(__file__)))
 INTRO = '''### 8.5 Seeded changes (independent sub-agents, property text only) and which checks catch them
 
-Four rounds (20 + 20 + 12 + 20 changes, one per property and round). Every sub-agent got the property text, the list of relevant source files and its own scratch git
+Five rounds (20 + 20 + 12 + 20 + 20 changes, one per property and round). Every sub-agent got the property text, the list of relevant source files and its own scratch git
 worktree of /repo, nothing from /verif; agents of later rounds were additionally told which functions the earlier changes had touched, to go elsewhere. Each change
 was confirmed by `tools/seed_confirm.sh` (demo passes on the unchanged tree and fails with the patch; the whole test-suite with the patch gives exactly the
 baseline lists) and evaluated with `tools/seed_eval_copy.sh` on a scratch copy of /repo; nothing was ever committed or left applied in /repo.
-`seeded/<id>[-r2|-r3|-r4]/` holds patch.diff, demo.py and meta.json (with the evaluation).
+`seeded/<id>[-r2|...|-r5]/` holds patch.diff, demo.py and meta.json (with the evaluation).
 
 Result: %s. What the misses had in common: the *discrete* parameters of a job (configuration-list layouts, option combinations, operand kinds, call
 histories, file-name orders) are a finite family chosen by hand, while the numeric data are symbolic; a change that needs a layout / combination outside the
 family is invisible. Every miss was answered by widening the family or by an engine feature (truthiness of symbolic reals, floating-point domains, a text-file
 model, an eigen-decomposition contract, tiny / huge replay data, CrossHair on symbolic name strings, the failure mode of the minimiser contracts, numpy's dtype inference in the
-shim's vectorize, struct.unpack_from in the typed buffer), never by special-casing the seeded patch; the new harnesses found seven genuine defects (8.4).
-One change of round 4 (C15-r4) is not caught and is outside the claim: it needs a central value of exactly 0.0 (Inf / NaN semantics of floating point).
+shim's vectorize, struct.unpack_from in the typed buffer, an exact model of rfft / irfft that lets the FFT branch run, the determinant as a polynomial, a model of h5py), never by
+special-casing the seeded patch; the new harnesses found nine genuine defects (8.4).
+Three changes are not caught and are outside the claim, all for the same reason - they are invisible in exact real arithmetic: C15-r4 needs a central value of exactly 0.0
+(Inf / NaN semantics), C13-r5 replaces lstsq by the normal equations (same function, squared condition number in floating point), C16-r5 replaces a hash comparison by an
+absolute tolerance of 1e-10 (needs matrices of size 1e-12; the harness forces the symmetrising branch because hashing of symbolic data is not modelled).
 Under several mutants the checks are slow (C02-r2, C03-r3, C12: 25-30 min) because refuted obligations are escalated through all lemma tiers.
 
 | seed | change (from the sub-agent's summary) | caught by | note |
